@@ -196,6 +196,8 @@ os.environ.setdefault("VERIF_TIME_SCALE", "%.2f" % _load_scale())
 def _is_model(exe_args):
     return os.path.basename(exe_args[0]) == "modelrun"
 
+HANGS = {"confirmed": 0}      # scripts of the implementation that hung twice (in their chunk and re-run alone) during this check
+
 def _run_chunk(exe_args, scripts, per_script_timeout):
     """Feed scripts to one process; on death/hang mark the in-flight script and continue with a
     fresh process. Returns dict id -> lines.  The extracted model is a total function: it gets a
@@ -204,8 +206,18 @@ def _run_chunk(exe_args, scripts, per_script_timeout):
     results = {}
     todo = list(scripts)
     while todo:
-        text = "".join(s.text() for s in todo)
-        limit = 3600 if _is_model(exe_args) else (20 + per_script_timeout * len(todo)) * _load_scale()
+        if not _is_model(exe_args) and HANGS["confirmed"] >= 8:
+            # a build on which script after script hangs (each costs its whole time limit): what has been seen is reported,
+            # the rest is not run — a check must end in minutes also on such a build
+            for s in todo:
+                results[s.id] = ["SKIPPED after %d hung scripts" % HANGS["confirmed"]]
+            break
+        if not _is_model(exe_args) and HANGS["confirmed"] >= 3:
+            batch = todo[:1]          # one script per process from now on: a hang costs one script's limit, not a chunk's
+        else:
+            batch = todo
+        text = "".join(s.text() for s in batch)
+        limit = 3600 if _is_model(exe_args) else (20 + per_script_timeout * len(batch)) * _load_scale()
         try:
             p = subprocess.run(exe_args, input=text, stdout=subprocess.PIPE, stderr=subprocess.PIPE,
                                text=True, timeout=limit)
@@ -216,6 +228,9 @@ def _run_chunk(exe_args, scripts, per_script_timeout):
             died, hung = True, True
         done, partial = parse_outputs(stdout)
         results.update(done)
+        if all(s.id in done for s in batch):
+            todo = [s for s in todo if s.id not in done]
+            continue
         remaining = [s for s in todo if s.id not in done]
         if not remaining:
             break
@@ -225,13 +240,17 @@ def _run_chunk(exe_args, scripts, per_script_timeout):
         bad = remaining[0]
         lines = list(partial[1]) if partial and partial[0] == bad.id else []
         lines.append("HUNG" if hung else "DIED")
-        if hung and not _is_model(exe_args):
+        if hung and not _is_model(exe_args) and HANGS["confirmed"] >= 3:
+            HANGS["confirmed"] += 1
+        elif hung and not _is_model(exe_args):
+            HANGS["confirmed"] += 1
             try:
                 q = subprocess.run(exe_args, input=bad.text(), stdout=subprocess.PIPE, stderr=subprocess.PIPE,
                                    text=True, timeout=(30 + 60 * per_script_timeout) * _load_scale())
                 d2, _ = parse_outputs(q.stdout)
                 if bad.id in d2:
                     lines = d2[bad.id]
+                    HANGS["confirmed"] -= 1      # it was the box, not the script
             except subprocess.TimeoutExpired:
                 pass
         results[bad.id] = lines
